@@ -4,7 +4,6 @@ import "time"
 
 // C05 / C01: the shrinker only moves to smaller buffers that still fail at the same site.
 
-
 // refShortlex is the reference order: length first, then lexicographic.
 func refShortlex(a, b []uint64) int {
 	if len(a) != len(b) {
